@@ -89,6 +89,8 @@ pub mod tree;
 pub mod util;
 #[cfg(taffy_verif)]
 pub mod verif_hooks;
+#[cfg(taffy_verif)]
+pub mod verif_trace;
 
 mod readme_doctest {
     #![doc = include_str!("../README.md")]
